@@ -173,6 +173,21 @@ def prop_selftest(case, r):
 
         res = w.run(prog)
         r.check(w.abort is None and not w.violations and res[1] == [1.0, 2.0, 3.0], 'selftest-legal-reuse-flagged', f'{res} {w.abort} {w.violations}')
+    elif kind == 'polling-livelock':
+        def prog(rank, comm):
+            if rank == 0:
+                out = np.zeros(1)
+                req = comm.Irecv(out, source=1, tag=4)  # nobody ever sends: polling must be recognised as a deadlock, without a clock
+                while not req.Test():
+                    pass
+            elif rank == 1 and n > 2:
+                comm.Send(np.ones(1), dest=2, tag=4)
+            elif rank == 2:
+                out = np.zeros(1)
+                comm.Recv(out, source=1, tag=4)
+
+        w.run(prog)
+        r.check(any(v[0] == 'deadlock' for v in w.violations) and not w.timed_out, 'selftest-livelock-not-detected', f'{w.violations} timed_out={w.timed_out}')
     elif kind == 'mismatched-collective':
         def prog(rank, comm):
             if rank == 0:
@@ -194,7 +209,7 @@ def prop_selftest(case, r):
 
 def selftest_enum(tier):
     out = []
-    for kind in ['ring', 'pingpong', 'collectives', 'deadlock', 'ssend-cycle', 'racy-buffer', 'racy-buffer-unwaited', 'legal-buffer-reuse', 'mismatched-collective', 'unmatched-recv']:
+    for kind in ['ring', 'pingpong', 'collectives', 'deadlock', 'ssend-cycle', 'racy-buffer', 'racy-buffer-unwaited', 'legal-buffer-reuse', 'polling-livelock', 'mismatched-collective', 'unmatched-recv']:
         for n in (2, 3, 4):
             for seed in range(6):
                 dec = [(seed * 7 + 3 * i) % 5 for i in range(seed * 4)]
@@ -335,6 +350,9 @@ def prop_time(case, r):
         r.nontrivial([P, case['levels'], case['predict'], case['jac'], case['all_to_done'], case['nsteps'], case['restol'], bool(case.get('script')), case['decisions'][:20], case['seed'], case['policy']])
     for tag, msg in world.violations:
         r.fail(f'mpi-{tag}', msg)
+    if world.timed_out:
+        r.discard('simulation exceeded its wall-clock budget (inconclusive, never a verdict)')
+        return
     if world.abort is not None:
         r.fail('mpi-run-aborted', str(world.abort)[:400])
         return
@@ -452,6 +470,9 @@ def prop_nodes(case, r):
         r.nontrivial([sw, M, case['QI'], case['residual_type'], case['coll_update'], case['nsteps'], case.get('levels', 1), case.get('adapt'), case['decisions'][:20], case['seed']])
     for tag, msg in world.violations:
         r.fail(f'mpi-{tag}', msg)
+    if world.timed_out:
+        r.discard('simulation exceeded its wall-clock budget (inconclusive, never a verdict)')
+        return
     if world.abort is not None:
         r.fail('mpi-run-aborted', str(world.abort)[:400])
         return
@@ -540,6 +561,9 @@ def prop_spacetime(case, r):
         r.nontrivial([sw, Pt, M, case['QI'], case['jac'], case['all_to_done'], case['nsteps'], case['restol'], case['decisions'][:20], case['seed']])
     for tag, msg in world.violations:
         r.fail(f'mpi-{tag}', msg)
+    if world.timed_out:
+        r.discard('simulation exceeded its wall-clock budget (inconclusive, never a verdict)')
+        return
     if world.abort is not None:
         r.fail('mpi-run-aborted', str(world.abort)[:400])
         return
